@@ -445,7 +445,10 @@ static void run_bat(char mode, int verify, int batch_size, char* proj) {
     carquet_batch_reader_t* br = carquet_batch_reader_create(rd, &cfg, &err);
     if (!br) { printf("ERR create %d\n", (int)err.code); carquet_reader_close(rd); return; }
     printf("OK");
-    enum { MAXB = 4096 };
+    /* every batch of a correct reader has at least one row, except one per empty row group */
+    long long MAXB = (long long)carquet_reader_num_rows(rd) + 2LL * carquet_reader_num_row_groups(rd) + 4;
+    if (MAXB > 4096) MAXB = 4096;
+    if (MAXB < 8) MAXB = 8;
     carquet_row_batch_t** kept = calloc(MAXB, sizeof *kept);
     keep_t* keeps = calloc((size_t)MAXB * MAXCOLS * 2, sizeof *keeps);
     int nkept = 0, nkeeps = 0;
